@@ -282,9 +282,9 @@ pub fn c14(cx: &Ctx) -> Report {
         let (tmin, tmax) = (as_i(&t.min()), as_i(&t.max()));
         for vd in d.std_validators() {
             match vd {
-                Vd::Greater(b) => lo = as_i(&b.v).map(|x| x + 1),
+                Vd::Greater(b) => lo = as_i(&b.v).and_then(|x| x.checked_add(1)),
                 Vd::GreaterOrEqual(b) => lo = as_i(&b.v),
-                Vd::Less(b) => hi = as_i(&b.v).map(|x| x - 1),
+                Vd::Less(b) => hi = as_i(&b.v).and_then(|x| x.checked_sub(1)),
                 Vd::LessOrEqual(b) => hi = as_i(&b.v),
                 _ => {}
             }
@@ -299,12 +299,12 @@ pub fn c14(cx: &Ctx) -> Report {
             r.hist("excluded-empty-valid-set", 1);
             return;
         }
-        if hi - lo >= 65536 {
+        if hi.checked_sub(lo).map(|w| w >= 65536).unwrap_or(true) {
             r.hist("skipped:range-wider-than-2^16", 1);
             return;
         }
         let mut valid: BTreeSet<Val> = BTreeSet::new();
-        for x in (lo - 2)..=(hi + 2) {
+        for x in lo.saturating_sub(2)..=hi.saturating_add(2) {
             if let Some(v) = t.val(x) {
                 if refsem::construct(d, &v).is_ok() {
                     valid.insert(v);
